@@ -65,6 +65,14 @@ def _b(x):
     return bool(x) if x is not None else False
 
 
+def norm_list(changes, target=None):
+    """Like norm_inv, but keeps multiplicity (sorted list)."""
+    out = []
+    for c in changes:
+        out.extend(norm_inv([c], target))
+    return sorted(out, key=repr)
+
+
 def norm_inv(changes, target=None):
     """InventoryTreeChange list -> set of comparable tuples (representation only).
     Unversioned entries: only the topmost one is kept (whether the contents of an
@@ -283,6 +291,39 @@ def compare_pair(ctx, a, b, filters, plan_names, is_wt, guards=frozenset()):
                                 if spec is not None:
                                     ctx.territory = "bzr_filter_duplicates"
                                 ctx.fail("duplicate_entries", who, "%s reports %r more than once" % (who, dup[:4]), params)
+                    if spec is not None and len(T.minimal_filter(spec)) < len(spec):
+                        # a filter path that lies inside another one selects nothing new: the
+                        # result (as a multiset) must be that of the filter without it
+                        mn = T.minimal_filter(spec)
+                        evaluations += 1
+                        for who, cls_, lst in ((impl, None, raw), ("generic", InterInventoryTree, raw_ref)):
+                            try:
+                                inter2 = InterTree.get(a, b) if cls_ is None else cls_(a, b)
+                                alt = list(inter2.iter_changes(inc, mn, want_unversioned=unv, require_versioned=False))
+                            except Exception as e:  # noqa: BLE001
+                                ctx.fail("optimised_raised" if cls_ is None else "generic_raised", who, "%s raised %r for the minimal filter %r" % (who, e, mn), params)
+                            x, y = norm_inv(lst, b), norm_inv(alt, b)
+                            if x != y:
+                                ctx.fail("redundant_filter_differs", who, "%s: filter %r and its minimal form %r give different results; only with the redundant filter: %r; only with the minimal one: %r" % (who, spec, mn, _short(x - y, 4), _short(y - x, 4)), params)
+                        # entries reported twice because filter roots overlap: an entry that did not
+                        # move (so not one of the recorded shapes of bzr_filter_duplicates, which
+                        # all concern entries whose path changed) and lies below a redundant root
+                        inner = [s for s in spec if s not in mn]
+                        seen_ids = {}
+                        for ch in raw:
+                            if ch.file_id is not None:
+                                seen_ids.setdefault(ch.file_id, []).append(ch)
+                        for fid, chs in sorted(seen_ids.items()):
+                            ch = chs[0]
+                            if len(chs) > 1 and (ch.path[0] == ch.path[1] or None in ch.path):
+                                p = ch.path[1] if ch.path[1] is not None else ch.path[0]
+                                # ... nor lies where a renamed / removed directory used to be (the
+                                # other recorded shape: anything below the OLD path of such a directory)
+                                old_dirs = [r[2][0] for r in full.get((False, False), ()) if r[0] == "v" and r[2][0] is not None and r[2][0] != r[2][1] and r[7][0] == "directory"]
+                                if any(T.inside(o, p) for o in old_dirs):
+                                    continue
+                                if any(T.inside(s, p) for s in inner):
+                                    ctx.fail("overlapping_roots_duplicates", impl, "%s reports %r (%r, not moved) %d times; it lies below %r, which the filter %r names in addition to an enclosing path" % (impl, fid, ch.path, len(chs), [s for s in inner if T.inside(s, p)], spec), params)
                     got_all, ref_all = norm_inv(raw, b), norm_inv(raw_ref, b)
                     got, ref = equalise(sim, got_all, ref_all, spec, inc, unv, impl, guards, full, a)
                     if got != ref:
@@ -347,6 +388,12 @@ def compare_pair(ctx, a, b, filters, plan_names, is_wt, guards=frozenset()):
                     except Exception as e:  # noqa: BLE001
                         ctx.fail("optimised_raised", impl, "%s raised %r" % (impl, e), params)
                     got = T.normalise_changes(raw, "git")
+                    if spec is not None and len(T.minimal_filter(spec)) < len(spec):
+                        mn = T.minimal_filter(spec)
+                        evaluations += 1
+                        alt = T.normalise_changes(list(InterTree.get(a, b).iter_changes(inc, mn, want_unversioned=unv, require_versioned=False)), "git")
+                        if alt != got:
+                            ctx.fail("redundant_filter_differs", impl, "filter %r and its minimal form %r give different results: %r" % (spec, mn, _short(alt ^ got)), params)
                     if spec is None:
                         full[inc, unv] = got
                         if any(r[0] == "p" for r in got) and not inc:
@@ -433,17 +480,55 @@ def compare_history(sim, tree, model):
 
     rng = sim.rng("pairs")
     cands = [NULL_REVISION] + revs
-    pairs = [(x, y) for x in cands for y in cands if x != y]
+    # consecutive revisions in both directions first (one commit's worth of change is where a
+    # filter on one entry and a renamed ancestor outside the filter meet), then random pairs
+    pairs = []
+    for i in range(len(cands) - 1):
+        pairs += [(cands[i], cands[i + 1]), (cands[i + 1], cands[i])]
     rng.shuffle(pairs)
+    rest = [(x, y) for x in cands for y in cands if x != y and (x, y) not in pairs]
+    rng.shuffle(rest)
+    pairs = pairs[:3] + rest[:2]
+    snaps = {NULL_REVISION: {}}
+    if model.flavour == "bzr" and len(model.revs) == len(revs):
+        for rid, (_name, snap) in zip(revs, model.revs, strict=False):
+            snaps[rid] = snap
     repo = tree.branch.repository
     with repo.lock_read():
-        for x, y in pairs[:4]:
+        for x, y in pairs:
+            filters = list(sim.plan.get("filters", []))
+            filters += targeted_filters(snaps.get(x), snaps.get(y), rng)
             a, b = repo.revision_tree(x), repo.revision_tree(y)
             with a.lock_read(), b.lock_read():
-                n, d = compare_pair(Ctx(sim, model.flavour, "revision trees %s -> %s" % (x.decode()[:12], y.decode()[:12])), a, b, sim.plan.get("filters", []), sim.plan.get("names", []), False, model.guards)
+                n, d = compare_pair(Ctx(sim, model.flavour, "revision trees %s -> %s" % (x.decode()[:12], y.decode()[:12])), a, b, filters, sim.plan.get("names", []), False, model.guards)
             st["evals"] += n
             st["differed"] = st["differed"] or d
             sim.event("cmp-revs", cands.index(x), cands.index(y), n)
+
+
+def targeted_filters(sa, sb, rng):
+    """Filters derived from two model snapshots (bzr: path -> (file id, kind, data, exec)):
+    an entry that stays under the same parent (edited, exec bit, or renamed in place) while
+    one of its ancestors moved - the case where the parent expansion of a filtered comparison
+    has to climb to an entry outside the filter."""
+    if not sa or not sb:
+        return []
+    ia = {e[0]: p for p, e in sa.items()}
+    ib = {e[0]: p for p, e in sb.items()}
+    out = []
+    for fid in sorted(set(ia) & set(ib)):
+        pa, pb = ia[fid], ib[fid]
+        if not pa or not pb:
+            continue
+        par_a, par_b = sa.get(T.parent(pa)), sb.get(T.parent(pb))
+        if par_a is None or par_b is None or par_a[0] != par_b[0]:
+            continue  # reparented (or odd): the ordinary expansion handles it
+        if T.parent(pa) == T.parent(pb):
+            continue  # no ancestor moved
+        out.append([pb])
+        out.append([pa])
+    rng.shuffle(out)
+    return out[:2]
 
 
 def execute(sim, plan):
